@@ -63,12 +63,15 @@ func setPlaceholderNames(n *ast.MsgNode) {
 		var nextSuffix = 1
 		for _, node := range nodes {
 			for {
+				// (a suffixed name must not collide with any base name.  checking the
+				// base names, as official Soy does, rather than the names assigned so
+				// far makes the result independent of the map iteration order.)
 				var newName = baseName + "_" + strconv.Itoa(nextSuffix)
-				if _, ok := nameToRepNodes[newName]; !ok {
+				nextSuffix++
+				if _, ok := baseNameToRepNodes[newName]; !ok {
 					nameToRepNodes[newName] = node
 					break
 				}
-				nextSuffix++
 			}
 		}
 	}
